@@ -12,6 +12,9 @@
 #include "tokenize.h"
 #include "tokenlist.h"
 
+#include <simplecpp.h>
+#include <list>
+
 #include <map>
 #include <vector>
 
@@ -116,6 +119,34 @@ VH_CMD(validate) {
         return {"E", "?", e.id};
     }
     return {"ok"};
+}
+
+// in: op a b (decimal long long): `#if (a) op (b)` through simplecpp::preprocess
+// out: "V" value of the condition | "X" message
+static std::string ppNum(const std::string& d) {
+    if (d == "-9223372036854775808")
+        return "(-9223372036854775807 - 1)";
+    if (!d.empty() && d[0] == '-')
+        return "(" + d + ")";
+    return d;
+}
+
+VH_CMD(ppfold) {
+    const std::string code = "#if " + ppNum(a.at(1)) + " " + a.at(0) + " " + ppNum(a.at(2)) + "\n#endif\n";
+    std::vector<std::string> files;
+    simplecpp::OutputList outputList;
+    const simplecpp::TokenList raw(code.data(), code.size(), files, "test.c", &outputList);
+    simplecpp::TokenList out(files);
+    simplecpp::FileDataCache cache;
+    simplecpp::DUI dui;
+    std::list<simplecpp::MacroUsage> mu;
+    std::list<simplecpp::IfCond> ifCond;
+    simplecpp::preprocess(out, raw, files, cache, dui, &outputList, &mu, &ifCond);
+    if (!outputList.empty())
+        return {"X", outputList.front().msg};
+    if (ifCond.size() != 1)
+        return {"?"};
+    return {"V", std::to_string(ifCond.front().result)};
 }
 
 // in: lang ("c"|"cpp") then token strings: the whole front end (simplifyTokens1) on the same text
